@@ -898,4 +898,583 @@ theorem run_inv {s : St} (h : Inv W s) (ops : List Op) : Inv W (run W s ops) := 
 
 end reach
 
+/-! ### frame lemmas: which fields an operation leaves alone -/
+
+/-- `s'` has the markers and genesis of `s` -/
+def SameMarkers (s s' : St) : Prop :=
+  s'.high = s.high ∧ s'.generic = s.generic ∧ s'.locked = s.locked ∧ s'.commit = s.commit ∧
+  s'.genesis = s.genesis
+
+theorem SameMarkers.same (s : St) : SameMarkers s s := ⟨rfl, rfl, rfl, rfl, rfl⟩
+
+theorem insertOrphan_frame (W : World) (s : St) (node p : Nat) :
+    SameMarkers s (insertOrphan W s node p) ∧ (insertOrphan W s node p).root = s.root ∧
+    (insertOrphan W s node p).pm = s.pm := by
+  unfold insertOrphan
+  split
+  · exact ⟨SameMarkers.same s, rfl, rfl⟩
+  · dsimp only
+    split <;> exact ⟨⟨rfl, rfl, rfl, rfl, rfl⟩, rfl, rfl⟩
+
+theorem insert_frame {W : World} {s s' : St} {node : Nat} (h : QcTree.insert W s node = some s') :
+    SameMarkers s s' ∧ s'.root = s.root ∧ s'.pm = s.pm := by
+  unfold QcTree.insert at h
+  split at h
+  · cases h
+  · split at h
+    · cases h; exact ⟨⟨rfl, rfl, rfl, rfl, rfl⟩, rfl, rfl⟩
+    · cases h; exact insertOrphan_frame W s node _
+
+theorem updateCommit_frame (W : World) (s : St) (id : Nat) : SameMarkers s (updateCommit W s id) := by
+  rcases updateCommit_cases W s id with e | ⟨ppp, pppp, e, _⟩
+  · rw [e]; exact SameMarkers.same s
+  · rw [e]; exact ⟨rfl, rfl, rfl, rfl, rfl⟩
+
+theorem highQcKeeps_false {a b : Int} (h : ¬ XV.Gen.highQcKeeps a b = true) : b ≤ a := by
+  unfold XV.Gen.highQcKeeps at h
+  simp at h
+  exact h
+
+theorem pmAdvance_ge (cur r : Int) : cur ≤ XV.Gen.pmAdvance cur r ∧ r + 1 ≤ XV.Gen.pmAdvance cur r := by
+  unfold XV.Gen.pmAdvance
+  split
+  · rename_i h; simp at h; omega
+  · rename_i h; simp at h; omega
+
+/-- `updateHighQC` either changes nothing or re-derives all four markers from a node whose view is
+not below the old HighQC's -/
+theorem updateHighQC_cases (W : World) (s : St) (id : Nat) :
+    updateHighQC W s id = s ∨
+    (updateHighQC W s id = derive W s id ∧ (W s.high).view ≤ (W id).view ∧ inMain s id = true) := by
+  unfold updateHighQC
+  split
+  · exact Or.inl rfl
+  · rename_i hin
+    split
+    · exact Or.inl rfl
+    · rename_i hk
+      exact Or.inr ⟨rfl, highQcKeeps_false hk, by simpa using hin⟩
+
+/-! ### the markers -/
+
+/-- GenericQC / LockedQC / CommitQC are the successive ancestors (by `ParentId`) of HighQC whenever
+they are set.  The one exception is the placeholder of the initial state (`InitQCTree` sets
+CommitQC = Genesis): it survives only while HighQC is still Genesis and nothing else is set. -/
+structure MarkersOK (W : World) (s : St) : Prop where
+  generic : ∀ g, s.generic = some g → (W s.high).parent = some g
+  locked : ∀ l, s.locked = some l → ∃ g, s.generic = some g ∧ (W g).parent = some l
+  commit : ∀ c, s.commit = some c → (∃ l, s.locked = some l ∧ (W l).parent = some c) ∨
+    (c = s.genesis ∧ s.high = s.genesis ∧ s.generic = none ∧ s.locked = none)
+
+theorem MarkersOK.of_same {W : World} {s s' : St} (h : MarkersOK W s) (hs : SameMarkers s s') : MarkersOK W s' := by
+  obtain ⟨h1, h2, h3, h4, h5⟩ := hs
+  constructor
+  · rw [h1, h2]; exact h.generic
+  · rw [h2, h3]; exact h.locked
+  · rw [h1, h2, h3, h4, h5]; exact h.commit
+
+theorem derive_markers (W : World) (s : St) (id : Nat) : MarkersOK W (derive W s id) := by
+  constructor
+  · intro g hg
+    exact (anc_some (s := s) hg).1
+  · intro l hl
+    obtain ⟨g, hg, hgl⟩ := Option.bind_eq_some_iff.mp hl
+    exact ⟨g, hg, (anc_some hgl).1⟩
+  · intro c hc
+    obtain ⟨l, hl, hlc⟩ := Option.bind_eq_some_iff.mp hc
+    exact Or.inl ⟨l, hl, (anc_some hlc).1⟩
+
+/-- the markers set by `derive` are nodes of the tree -/
+theorem derive_in_tree (W : World) (s : St) (id : Nat) :
+    (∀ g, (derive W s id).generic = some g → inMain s g = true) ∧
+    (∀ l, (derive W s id).locked = some l → inMain s l = true) ∧
+    (∀ c, (derive W s id).commit = some c → inMain s c = true) := by
+  refine ⟨?_, ?_, ?_⟩
+  · intro g hg; exact (anc_some (s := s) hg).2
+  · intro l hl
+    obtain ⟨g, _, hgl⟩ := Option.bind_eq_some_iff.mp hl
+    exact (anc_some hgl).2
+  · intro c hc
+    obtain ⟨l, _, hlc⟩ := Option.bind_eq_some_iff.mp hc
+    exact (anc_some hlc).2
+
+theorem updateHighQC_markers {W : World} {s : St} (h : MarkersOK W s) (id : Nat) :
+    MarkersOK W (updateHighQC W s id) := by
+  rcases updateHighQC_cases W s id with e | ⟨e, _⟩
+  · rw [e]; exact h
+  · rw [e]; exact derive_markers W s id
+
+theorem updateQcStatus_markers {W : World} {s : St} (h : MarkersOK W s) (id : Nat) :
+    MarkersOK W (updateQcStatus W s id).1 := by
+  unfold updateQcStatus
+  split
+  · exact h
+  · split
+    · exact h
+    · rename_i s' hi
+      have hs' := h.of_same (insert_frame hi).1
+      split
+      · exact hs'
+      · exact updateHighQC_markers hs' _
+
+theorem stepOp_markers {W : World} {s : St} (h : MarkersOK W s) (o : Op) : MarkersOK W (stepOp W s o).1 := by
+  cases o with
+  | ins id => exact updateQcStatus_markers h id
+  | high id => exact updateHighQC_markers h id
+  | enforce id =>
+    simp only [stepOp, enforceUpdateHighQC]
+    split
+    · exact h
+    · exact derive_markers W s id
+  | commit id => exact h.of_same (updateCommit_frame W s id)
+  | prop id pview c =>
+    simp only [stepOp]
+    split
+    · exact h
+    · apply updateQcStatus_markers
+      have h1 : MarkersOK W (advanceView s pview) := h.of_same ⟨rfl, rfl, rfl, rfl, rfl⟩
+      split
+      · exact h1.of_same (updateCommit_frame W _ _)
+      · exact h1
+  | vote id =>
+    simp only [stepOp]
+    split
+    · exact h
+    · exact updateHighQC_markers (s := advanceView s (W id).view) (h.of_same ⟨rfl, rfl, rfl, rfl, rfl⟩) id
+  | pm v => exact h.of_same ⟨rfl, rfl, rfl, rfl, rfl⟩
+
+/-! ### HighQC view, root, pacemaker: one step -/
+
+theorem updateHighQC_view (W : World) (s : St) (id : Nat) :
+    (W s.high).view ≤ (W (updateHighQC W s id).high).view := by
+  rcases updateHighQC_cases W s id with e | ⟨e, hv, _⟩
+  · rw [e]; exact Int.le_refl _
+  · rw [e]; exact hv
+
+theorem updateQcStatus_view (W : World) (s : St) (id : Nat) :
+    (W s.high).view ≤ (W (updateQcStatus W s id).1.high).view := by
+  unfold updateQcStatus
+  split
+  · exact Int.le_refl _
+  · split
+    · exact Int.le_refl _
+    · rename_i s' hi
+      have hh : s'.high = s.high := (insert_frame hi).1.1
+      split
+      · rw [hh]; exact Int.le_refl _
+      · rw [← hh]; exact updateHighQC_view W s' _
+
+theorem updateQcStatus_root (W : World) (s : St) (id : Nat) : (updateQcStatus W s id).1.root = s.root := by
+  unfold updateQcStatus
+  split
+  · rfl
+  · split
+    · rfl
+    · rename_i s' hi
+      have hr : s'.root = s.root := (insert_frame hi).2.1
+      split
+      · exact hr
+      · rw [(updateHighQC_tree W s' _).2.1]; exact hr
+
+theorem updateQcStatus_pm (W : World) (s : St) (id : Nat) : (updateQcStatus W s id).1.pm = s.pm := by
+  unfold updateQcStatus
+  split
+  · rfl
+  · split
+    · rfl
+    · rename_i s' hi
+      have hr : s'.pm = s.pm := (insert_frame hi).2.2
+      split
+      · exact hr
+      · rw [(updateHighQC_tree W s' _).2.2.2.2.2.1]; exact hr
+
+theorem updateCommit_root (W : World) (s : St) (id : Nat) : Desc s.sons s.root (updateCommit W s id).root := by
+  rcases updateCommit_cases W s id with e | ⟨ppp, pppp, e, h1, _⟩
+  · rw [e]; exact Desc.refl _
+  · rw [e]; exact dfs_sound h1
+
+/-! ## The property theorems -/
+
+/-- The pending structure is a forest: Root's tree plus the orphan trees. -/
+structure Forest (W : World) (s : St) : Prop where
+  /-- every non-root node hangs under the node its `ParentId` names -/
+  edges : ∀ a c, Stored s a → c ∈ s.sons a → (W c).parent = some a
+  /-- no father lists a son twice -/
+  sonsNodup : ∀ a, Stored s a → (s.sons a).Nodup
+  /-- Root and the orphan roots are pairwise distinct -/
+  topsNodup : (s.root :: s.orphans).Nodup
+  /-- Root and the orphan roots are nobody's sons -/
+  topsNoFather : ∀ a c, Stored s a → c ∈ s.sons a → c ∉ s.root :: s.orphans
+  /-- every id occurs at most once: there is only one way to reach it from Root / the orphan roots -/
+  once : ∀ t1 t2 l1 l2 x, t1 ∈ s.root :: s.orphans → t2 ∈ s.root :: s.orphans →
+    Path s.sons t1 l1 x → Path s.sons t2 l2 x → t1 = t2 ∧ l1 = l2
+
+theorem Path.cases_tail {sons a l x} (h : Path sons a l x) :
+    (l = [] ∧ x = a) ∨ ∃ l' b, l = l' ++ [x] ∧ Path sons a l' b ∧ x ∈ sons b := by
+  induction h with
+  | nil => exact Or.inl ⟨rfl, rfl⟩
+  | @cons a c x l hc hp ih =>
+    right
+    rcases ih with ⟨e1, e2⟩ | ⟨l', b, e, hp', hx⟩
+    · subst e1; subst e2
+      exact ⟨[], a, rfl, Path.nil a, hc⟩
+    · subst e
+      exact ⟨c :: l', b, rfl, Path.cons hc hp', hx⟩
+
+theorem Inv.path_unique {W : World} {s : St} (h : Inv W s) :
+    ∀ n l1, l1.length = n → ∀ t1 t2 l2 x, t1 ∈ s.root :: s.orphans → t2 ∈ s.root :: s.orphans →
+      Path s.sons t1 l1 x → Path s.sons t2 l2 x → t1 = t2 ∧ l1 = l2 := by
+  have top_st : ∀ t, t ∈ s.root :: s.orphans → Stored s t := by
+    intro t ht
+    rcases List.mem_cons.mp ht with e | e
+    · exact Or.inl (e ▸ Desc.refl _)
+    · exact Or.inr ⟨t, e, Desc.refl _⟩
+  have notson : ∀ t, t ∈ s.root :: s.orphans → ∀ b, Stored s b → t ∈ s.sons b → False := by
+    intro t ht b hb hc
+    have := h.top b t hb hc
+    rcases List.mem_cons.mp ht with e | e
+    · exact this.1 e
+    · exact this.2 e
+  intro n
+  induction n with
+  | zero =>
+    intro l1 hl t1 t2 l2 x ht1 ht2 h1 h2
+    have : l1 = [] := List.length_eq_zero_iff.mp hl
+    subst this
+    cases h1
+    rcases h2.cases_tail with ⟨e1, e2⟩ | ⟨l', b, _, hp', hx⟩
+    · exact ⟨e2, e1.symm⟩
+    · exact (notson _ ht1 b ((top_st t2 ht2).desc hp'.desc) hx).elim
+  | succ n ih =>
+    intro l1 hl t1 t2 l2 x ht1 ht2 h1 h2
+    rcases h1.cases_tail with ⟨e1, _⟩ | ⟨l1', b1, e1, hp1, hx1⟩
+    · subst e1; simp at hl
+    · rcases h2.cases_tail with ⟨_, e2⟩ | ⟨l2', b2, e2, hp2, hx2⟩
+      · subst e2
+        exact (notson _ ht2 b1 ((top_st t1 ht1).desc hp1.desc) hx1).elim
+      · have e3 := h.edge _ _ hx1
+        have e4 := h.edge _ _ hx2
+        have : b1 = b2 := by rw [e3] at e4; exact Option.some.inj e4
+        subst this
+        have hlen : l1'.length = n := by subst e1; simp at hl; exact hl
+        obtain ⟨r1, r2⟩ := ih l1' hlen t1 t2 l2' b1 ht1 ht2 hp1 hp2
+        subst r2
+        exact ⟨r1, by rw [e1, e2]⟩
+
+theorem Inv.forest {W : World} {s : St} (h : Inv W s) : Forest W s := by
+  constructor
+  · intro a c _ hc; exact h.edge a c hc
+  · intro a _; exact h.sonsNodup a
+  · exact List.nodup_cons.mpr ⟨h.rootNotOrph, h.orphNodup⟩
+  · intro a c ha hc hm
+    have := h.top a c ha hc
+    rcases List.mem_cons.mp hm with e | e
+    · exact this.1 e
+    · exact this.2 e
+  · intro t1 t2 l1 l2 x ht1 ht2 h1 h2
+    exact h.path_unique l1.length l1 rfl t1 t2 l2 x ht1 ht2 h1 h2
+
+/-- **tree_inv.** After every sequence of operations (proposal arrivals in any order, duplicates,
+certifications, rollbacks, commits, SMR proposal/vote steps, pacemaker advances), starting from the
+initial tree, Root's tree together with the orphan forest is a forest, every id occurs in it at most
+once, and every non-root node hangs under the node its `ParentId` names. -/
+theorem tree_inv (W : World) (hW : Acyclic W) (g : Nat) (ops : List Op) :
+    Forest W (run W (init g) ops) := by
+  obtain ⟨rk, hrk⟩ := hW
+  exact (run_inv hrk (init_inv W g) ops).forest
+
+theorem Stored.congr {s s' : St} (h1 : s'.sons = s.sons) (h2 : s'.root = s.root) (h3 : s'.orphans = s.orphans)
+    {x : Nat} (h : Stored s x) : Stored s' x := by
+  unfold Stored InMain InOrph at *
+  rw [h1, h2, h3]; exact h
+
+theorem place_stored_node {W : World} {s : St} {node p : Nat} {kids rest : List Nat} {attach : Bool}
+    {om : List Nat} (h : PlaceHyp W s node p kids rest attach om) :
+    Stored (place s node p kids rest attach om) node := by
+  rcases h.cases with ⟨ha, hm⟩ | ⟨ha, ⟨r, hr, hd⟩, _⟩ | ⟨ha, _⟩
+  · subst ha
+    left
+    exact Desc.tail (h.desc_old (Or.inl (Desc.refl _)) hm) place_sons_node
+  · subst ha
+    right
+    have hro := (h.restSub r hr).1
+    exact ⟨r, hr, Desc.tail (h.desc_old (Or.inr ⟨r, hro, Desc.refl _⟩) hd) place_sons_node⟩
+  · subst ha
+    right
+    exact ⟨node, by simp [place], Desc.refl _⟩
+
+/-- **stored_once.** A proposal with a parent id that is handed to `updateQcStatus` in any reachable
+state is accepted and afterwards stored (by `tree_inv`: exactly once) — in the tree or in the orphan
+forest — unless it had already gone through the orphan list before (`OrphanMap`) and has since been
+dropped by orphan expiry or commit pruning. -/
+theorem stored_once (W : World) (hW : Acyclic W) (g : Nat) (ops : List Op) (id p : Nat)
+    (hp : (W id).parent = some p) :
+    (updateQcStatus W (run W (init g) ops) id).2 = true ∧
+    (Stored (updateQcStatus W (run W (init g) ops) id).1 id ∨
+      (id ∈ (run W (init g) ops).omap ∧ ¬ Stored (run W (init g) ops) id)) := by
+  obtain ⟨rk, hrk⟩ := hW
+  have h := run_inv hrk (init_inv W g) ops
+  generalize run W (init g) ops = s at h
+  unfold updateQcStatus
+  by_cases hin : inMain s id = true
+  · simp only [hin, if_true]
+    exact ⟨by simp, Or.inl (Or.inl (dfs_sound hin))⟩
+  · have hin' : inMain s id = false := by simpa using hin
+    simp only [hin', Bool.false_eq_true, if_false]
+    have key : ∀ s', QcTree.insert W s id = some s' → Stored s' id ∨ (id ∈ s.omap ∧ ¬ Stored s id) := by
+      intro s' hi
+      unfold QcTree.insert at hi
+      rw [hp] at hi
+      simp only at hi
+      split at hi
+      · rename_i hpm
+        cases hi
+        exact Or.inl (place_stored_node (insertMain_hyp hrk h hp hin' hpm))
+      · rename_i hpm
+        cases hi
+        rcases insertOrphan_cases hrk h hp hin' (by simpa using hpm) with ⟨e, hom⟩ | ⟨kids, rest, attach, e, hyp, _⟩
+        · rw [e]
+          by_cases hst : Stored s id
+          · exact Or.inl hst
+          · exact Or.inr ⟨hom, hst⟩
+        · rw [e]; exact Or.inl (place_stored_node hyp)
+    cases hi : QcTree.insert W s id with
+    | none => unfold QcTree.insert at hi; rw [hp] at hi; simp only at hi; split at hi <;> cases hi
+    | some s' =>
+      simp only [hp]
+      refine ⟨by simp, ?_⟩
+      rcases key s' hi with h1 | h1
+      · left
+        obtain ⟨e1, e2, e3, _⟩ := updateHighQC_tree W s' p
+        exact h1.congr e1 e2 e3
+      · exact Or.inr h1
+
+/-- **adopted_on_parent_arrival.** In every reachable state — in particular right after the arrival
+of `p` — every stored proposal `c` (other than Root) whose parent `p` is stored hangs directly under
+`p` and is not an orphan root: no orphan waits beside its parent. -/
+theorem adopted_on_parent_arrival (W : World) (hW : Acyclic W) (g : Nat) (ops : List Op) (c p : Nat)
+    (hc : Stored (run W (init g) ops) c) (hroot : c ≠ (run W (init g) ops).root)
+    (hpar : (W c).parent = some p) (hp : Stored (run W (init g) ops) p) :
+    c ∈ (run W (init g) ops).sons p ∧ c ∉ (run W (init g) ops).orphans := by
+  obtain ⟨rk, hrk⟩ := hW
+  have h := run_inv hrk (init_inv W g) ops
+  generalize run W (init g) ops = s at h hc hroot hp
+  have fromEdge : ∀ b, Stored s b → c ∈ s.sons b → c ∈ s.sons p ∧ c ∉ s.orphans := by
+    intro b hb hcb
+    have e := h.edge _ _ hcb
+    have : b = p := by rw [hpar] at e; exact (Option.some.inj e).symm
+    subst this
+    exact ⟨hcb, (h.top b c hb hcb).2⟩
+  rcases hc with hm | ⟨r, hr, hd⟩
+  · rcases hm.cases_tail with e | ⟨b, hb, hcb⟩
+    · exact (hroot e).elim
+    · exact fromEdge b (Or.inl hb) hcb
+  · rcases hd.cases_tail with e | ⟨b, hb, hcb⟩
+    · subst e; exact (h.orphParent c hr p hpar hp).elim
+    · exact fromEdge b (Or.inr ⟨r, hr, hb⟩) hcb
+
+/-- an operation other than the explicit rollback -/
+def notEnforce : Op → Prop
+  | .enforce _ => False
+  | _ => True
+
+/-- **highqc_monotone** (one step, any state): the view of HighQC never decreases except by
+`enforceUpdateHighQC`. -/
+theorem highqc_monotone_step (W : World) (s : St) (o : Op) (ho : notEnforce o) :
+    (W s.high).view ≤ (W (stepOp W s o).1.high).view := by
+  cases o with
+  | ins id => exact updateQcStatus_view W s id
+  | high id => exact updateHighQC_view W s id
+  | enforce id => exact ho.elim
+  | commit id =>
+    simp only [stepOp]
+    rw [(updateCommit_frame W s id).1]; exact Int.le_refl _
+  | prop id pview c =>
+    simp only [stepOp]
+    split
+    · exact Int.le_refl _
+    · refine Int.le_trans ?_ (updateQcStatus_view W _ id)
+      split
+      · rw [(updateCommit_frame W _ _).1]; exact Int.le_refl _
+      · exact Int.le_refl _
+  | vote id =>
+    simp only [stepOp]
+    split
+    · exact Int.le_refl _
+    · exact updateHighQC_view W (advanceView s (W id).view) id
+  | pm v => exact Int.le_refl _
+
+/-- **highqc_monotone**: over any history without explicit rollback the view of HighQC is
+non-decreasing (from any state, reachable or not). -/
+theorem highqc_monotone (W : World) (s : St) (ops : List Op) (ho : ∀ o, o ∈ ops → notEnforce o) :
+    (W s.high).view ≤ (W (run W s ops).high).view := by
+  induction ops generalizing s with
+  | nil => exact Int.le_refl _
+  | cons o ops ih =>
+    refine Int.le_trans (highqc_monotone_step W s o (ho o List.mem_cons_self)) ?_
+    exact ih (stepOp W s o).1 (fun o' ho' => ho o' (List.mem_cons_of_mem _ ho'))
+
+theorem init_markers (W : World) (g : Nat) : MarkersOK W (init g) := by
+  constructor
+  · intro x hx; simp [init] at hx
+  · intro x hx; simp [init] at hx
+  · intro c hc
+    simp [init] at hc
+    subst hc
+    exact Or.inr ⟨rfl, rfl, rfl, rfl⟩
+
+/-- **markers_are_ancestors.** In every reachable state GenericQC, LockedQC, CommitQC are — whenever
+set — the parent, grandparent and great-grandparent (by `ParentId`) of HighQC; a later marker is set
+only if the earlier ones are.  (Exception spelled out in `MarkersOK.commit`: the initial
+CommitQC = Genesis placeholder, which lasts only while HighQC = Genesis and nothing else is set.) -/
+theorem markers_are_ancestors (W : World) (g : Nat) (ops : List Op) : MarkersOK W (run W (init g) ops) := by
+  have : ∀ s, MarkersOK W s → MarkersOK W (run W s ops) := by
+    induction ops with
+    | nil => intro s h; exact h
+    | cons o ops ih => intro s h; exact ih _ (stepOp_markers h o)
+  exact this _ (init_markers W g)
+
+/-- **root_moves_down** (one step, any state): the new Root is a node of the old tree (a descendant of
+the old Root); only `commit` / `prop` move it. -/
+theorem root_moves_down (W : World) (s : St) (o : Op) : Desc s.sons s.root (stepOp W s o).1.root := by
+  cases o with
+  | ins id => simp only [stepOp]; rw [updateQcStatus_root]; exact Desc.refl _
+  | high id => simp only [stepOp]; rw [(updateHighQC_tree W s id).2.1]; exact Desc.refl _
+  | enforce id =>
+    simp only [stepOp, enforceUpdateHighQC]
+    split
+    · exact Desc.refl _
+    · exact Desc.refl _
+  | commit id => exact updateCommit_root W s id
+  | prop id pview c =>
+    simp only [stepOp]
+    split
+    · exact Desc.refl _
+    · rw [updateQcStatus_root]
+      split
+      · exact updateCommit_root W (advanceView s pview) _
+      · exact Desc.refl _
+  | vote id =>
+    simp only [stepOp]
+    split
+    · exact Desc.refl _
+    · rw [(updateHighQC_tree W _ id).2.1]; exact Desc.refl _
+  | pm v => exact Desc.refl _
+
+/-- `a` is an ancestor-or-self of `x` along `ParentId`s -/
+inductive AncW (W : World) (a : Nat) : Nat → Prop
+  | refl : AncW W a a
+  | step {x p : Nat} : (W x).parent = some p → AncW W a p → AncW W a x
+
+theorem AncW.trans {W : World} {a b c : Nat} (h1 : AncW W a b) (h2 : AncW W b c) : AncW W a c := by
+  induction h2 with
+  | refl => exact h1
+  | step hp _ ih => exact AncW.step hp ih
+
+theorem Desc.ancW {W : World} {sons : Nat → List Nat} (he : EdgeOK W sons) {a x : Nat} (h : Desc sons a x) :
+    AncW W a x := by
+  refine Desc.tail_induction (P := AncW W a) AncW.refl ?_ h
+  intro b c _ hb hc
+  exact AncW.step (he _ _ hc) hb
+
+/-- **root_moves_down** over histories: from a reachable state on, whatever happens, the Root stays
+on the descendant side of the earlier Root (the earlier Root is its ancestor-or-self by `ParentId`). -/
+theorem root_only_descends (W : World) (hW : Acyclic W) (g : Nat) (ops more : List Op) :
+    AncW W (run W (init g) ops).root (run W (run W (init g) ops) more).root := by
+  obtain ⟨rk, hrk⟩ := hW
+  have h := run_inv hrk (init_inv W g) ops
+  generalize run W (init g) ops = s at h
+  induction more generalizing s with
+  | nil => exact AncW.refl
+  | cons o more ih =>
+    have h1 : AncW W s.root (stepOp W s o).1.root := (root_moves_down W s o).ancW h.edge
+    exact h1.trans (ih _ (stepOp_inv hrk h o))
+
+/-- **pacemaker_monotone** (one step, any state): the pacemaker view never decreases, and after it is
+advanced by a certificate of view `v` it is at least `v + 1`. -/
+theorem pacemaker_monotone_step (W : World) (s : St) (o : Op) : s.pm ≤ (stepOp W s o).1.pm := by
+  cases o with
+  | ins id => simp only [stepOp]; rw [updateQcStatus_pm]; exact Int.le_refl _
+  | high id => simp only [stepOp]; rw [(updateHighQC_tree W s id).2.2.2.2.2.1]; exact Int.le_refl _
+  | enforce id =>
+    simp only [stepOp, enforceUpdateHighQC]
+    split
+    · exact Int.le_refl _
+    · exact Int.le_refl _
+  | commit id =>
+    simp only [stepOp]
+    rcases updateCommit_cases W s id with e | ⟨_, _, e, _⟩ <;> rw [e] <;> exact Int.le_refl _
+  | prop id pview c =>
+    simp only [stepOp]
+    split
+    · exact Int.le_refl _
+    · rw [updateQcStatus_pm]
+      have h1 : s.pm ≤ (advanceView s pview).pm := (pmAdvance_ge s.pm pview).1
+      split
+      · rcases updateCommit_cases W (advanceView s pview) ‹Nat› with e | ⟨_, _, e, _⟩ <;> rw [e] <;> exact h1
+      · exact h1
+  | vote id =>
+    simp only [stepOp]
+    split
+    · exact Int.le_refl _
+    · rw [(updateHighQC_tree W _ id).2.2.2.2.2.1]; exact (pmAdvance_ge s.pm _).1
+  | pm v => exact (pmAdvance_ge s.pm v).1
+
+theorem pacemaker_monotone (W : World) (s : St) (ops : List Op) : s.pm ≤ (run W s ops).pm := by
+  induction ops generalizing s with
+  | nil => exact Int.le_refl _
+  | cons o ops ih => exact Int.le_trans (pacemaker_monotone_step W s o) (ih _)
+
+theorem pacemaker_advances (W : World) (s : St) (v : Int) : v + 1 ≤ (stepOp W s (.pm v)).1.pm :=
+  (pmAdvance_ge s.pm v).2
+
+/-! ### non-vacuity: concrete reachable states -/
+
+/-- proposals 1 ← 2 ← {31, 32} below the genesis proposal 0 (the arrival order 31, 32, 2, 1 is the
+replay of the repaired defect, corpus/C15/orphan-siblings.ops) and a chain 0 ← 1 ← … for the rest -/
+def W1 : World := fun x =>
+  if x = 0 then ⟨0, none⟩ else if x = 31 ∨ x = 32 then ⟨3, some 2⟩
+  else if x = 40 then ⟨1, some 39⟩ else ⟨x, some (x - 1)⟩
+
+theorem W1_acyclic : Acyclic W1 := by
+  refine ⟨fun x => x, ?_⟩
+  intro x p h
+  show p < x
+  unfold W1 at h
+  split at h
+  · cases h
+  · split at h
+    · simp at h; omega
+    · split at h
+      · simp at h; omega
+      · simp at h; omega
+
+/-- children first: 31 and 32 wait as orphans, 2 collects *both* of them … -/
+example : (run W1 (init 0) [.ins 31, .ins 32, .ins 2]).orphans = [2] ∧
+    (run W1 (init 0) [.ins 31, .ins 32, .ins 2]).sons 2 = [31, 32] := by decide
+
+/-- … and when 1 arrives the whole orphan tree is adopted: nothing is left beside its parent
+(`adopted_on_parent_arrival` with non-trivial hypotheses) -/
+example : (run W1 (init 0) [.ins 31, .ins 32, .ins 2, .ins 1]).orphans = [] ∧
+    mainNodes (run W1 (init 0) [.ins 31, .ins 32, .ins 2, .ins 1]) = [0, 1, 2, 31, 32] := by decide
+
+example : Stored (run W1 (init 0) [.ins 31, .ins 32, .ins 2, .ins 1]) 32 :=
+  Or.inl (dfs_sound (f := 5) (by decide))
+
+/-- a chain of five certified proposals: the markers are the three ancestors of HighQC, and the commit
+moves Root three generations below the certified node (`markers_are_ancestors`, `root_moves_down`,
+`highqc_monotone` are about states like this one) -/
+example : let s := run W1 (init 0) [.ins 1, .ins 2, .ins 3, .ins 4, .ins 5, .high 5]
+    s.high = 5 ∧ s.generic = some 4 ∧ s.locked = some 3 ∧ s.commit = some 2 ∧
+    (stepOp W1 s (.commit 5)).1.root = 2 ∧ mainNodes (stepOp W1 s (.commit 5)).1 = [2, 3, 4, 5] := by decide
+
+/-- the exception in `stored_once` is real: the orphan 40 (view 1) expires once Root has view 3 (it is
+dropped when the next orphan arrives), and its re-delivery is ignored because `OrphanMap` remembers it -/
+example : let s := run W1 (init 0) [.ins 40, .ins 1, .ins 2, .ins 3, .ins 4, .ins 5, .ins 6, .commit 6, .ins 9, .ins 40]
+    s.root = 3 ∧ s.orphans = [9] ∧ 40 ∈ s.omap ∧ 40 ∉ mainNodes s ++ orphanNodes s ∧
+    (stepOp W1 s (.ins 40)).2 = true := by decide
+
+/-- the pacemaker only moves forward -/
+example : (run W1 (init 0) [.pm 4, .pm 2, .vote 0]).pm = 5 := by decide
+
 end XV.C15
